@@ -547,3 +547,192 @@ func TestPropStream(t *testing.T) {
 		return c
 	})
 }
+
+// ------------------------------------------------------------------- calls after a failed call
+//
+// One Decoder, a reader that fails ONCE in the middle of an item head (a transient error, or
+// io.EOF on a source that receives more data later) and then carries on. The call that meets
+// the fault must fail. Every later call is judged against the bytes that start at the reader's
+// position when it begins: if it succeeds, the value must be the one RFC 8949 assigns to the
+// item there and exactly that item must be consumed (no state may leak from the failed call).
+// Whether a decoder accepts anything at all after an error is not demanded.
+
+type faultReader struct {
+	b       []byte
+	pos     int
+	chunk   int
+	faultAt int
+	err     error
+	fired   bool
+}
+
+func (r *faultReader) Read(p []byte) (int, error) {
+	if !r.fired && r.pos == r.faultAt {
+		r.fired = true
+		return 0, r.err
+	}
+	if r.pos >= len(r.b) {
+		return 0, io.EOF
+	}
+	n := len(p)
+	if r.chunk > 0 && n > r.chunk {
+		n = r.chunk
+	}
+	if !r.fired && r.pos+n > r.faultAt {
+		n = r.faultAt - r.pos
+	}
+	n = copy(p[:n], r.b[r.pos:])
+	r.pos += n
+	return n, nil
+}
+
+type ResumeCase struct {
+	Pre      []StreamItem `json:"pre"`
+	Partial  StreamItem   `json:"partial"`  // head with a 1/2/4/8-byte argument
+	Keep     int          `json:"keep"`     // argument bytes delivered before the fault (< width), or -1: fault inside string content
+	PartCall string       `json:"part_call"`
+	Post     []StreamItem `json:"post"`
+	Calls    []string     `json:"calls"` // for the Post items
+	EOF      bool         `json:"eof"`   // the fault is io.EOF instead of an error
+	Chunk    int          `json:"chunk"`
+}
+
+func itemBytes(it StreamItem) []byte {
+	out := refcbor.HeadW(it.Major, it.Arg, it.Width)
+	if it.Major == 2 || it.Major == 3 {
+		for i := uint64(0); i < it.Arg; i++ {
+			out = append(out, it.Fill)
+		}
+	}
+	return out
+}
+
+var errTransient = fmt.Errorf("transient read error injected by the harness")
+
+var resumeProp = vh.Define("C12", "resume", func(c ResumeCase, r *vh.R) {
+	if c.Partial.Width < 1 || c.Keep >= c.Partial.Width {
+		r.Skip = true
+		return
+	}
+	var b []byte
+	for _, it := range c.Pre {
+		b = append(b, itemBytes(it)...)
+	}
+	ph := refcbor.HeadW(c.Partial.Major, c.Partial.Arg, c.Partial.Width)
+	if c.Keep >= 0 {
+		b = append(b, ph[:1+c.Keep]...)
+	} else { // whole head, half of the content
+		b = append(b, ph...)
+		for i := uint64(0); i < c.Partial.Arg/2; i++ {
+			b = append(b, c.Partial.Fill)
+		}
+	}
+	faultAt := len(b)
+	for _, it := range c.Post {
+		b = append(b, itemBytes(it)...)
+	}
+	fr := &faultReader{b: b, chunk: c.Chunk, faultAt: faultAt, err: errTransient}
+	if c.EOF {
+		fr.err = io.EOF
+	}
+	dec := cbor.NewDecoder(fr)
+	off := 0
+	for i, it := range c.Pre {
+		m := map[int]string{0: "uint", 2: "bytes", 3: "text", 4: "array", 5: "map"}[it.Major]
+		got := call(dec, m)
+		ok, num, str, consumed, _ := expected(b[:faultAt], off, m)
+		if !ok {
+			r.Skip = true // generator only builds decodable Pre items
+			return
+		}
+		if !got.ok || got.num != num || !bytes.Equal(got.str, str) {
+			r.Failf("wrong-value", "pre call %d Decode(%s) at %d of %x: ok=%v num=%d str=%x", i, m, off, trunc(b), got.ok, got.num, trunc(got.str))
+			return
+		}
+		off += consumed
+	}
+	got := call(dec, c.PartCall)
+	if !fr.fired {
+		r.Class("fault-not-reached") // e.g. wrong major type reported before the argument is read
+	} else if got.ok {
+		r.Failf("accepted-malformed", "Decode(%s) succeeded although the reader failed (%v) inside the item starting at %d of %x", c.PartCall, fr.err, off, trunc(b))
+		return
+	}
+	later := 0
+	for i, m := range c.Calls {
+		start := fr.pos
+		got := call(dec, m)
+		if !got.ok {
+			r.Class("rejects-after-error")
+			continue
+		}
+		ok, num, str, consumed, why := expected(b, start, m)
+		if !ok {
+			r.Failf("accepted-malformed", "after a failed call, call %d Decode(%s) with the reader at %d of %x succeeded, must fail: %s", i, m, start, trunc(b), why)
+			return
+		}
+		if got.num != num || !bytes.Equal(got.str, str) {
+			r.Failf("wrong-value-after-error", "after a failed call (reader fault %v after %d argument bytes of head %x), call %d Decode(%s) with the reader at %d of %x returned num=%d (%#x) str=%x, the item there is num=%d (%#x) str=%x",
+				fr.err, c.Keep, ph, i, m, start, trunc(b), got.num, got.num, trunc(got.str), num, num, trunc(str))
+			return
+		}
+		if fr.pos != start+consumed {
+			r.Failf("wrong-consumption", "after a failed call, call %d Decode(%s) started at %d, item ends at %d, reader at %d", i, m, start, start+consumed, fr.pos)
+			return
+		}
+		later++
+	}
+	if fr.fired && later >= 1 {
+		r.NT()
+		r.Class("decoded-after-error")
+	}
+	if c.EOF {
+		r.Class("fault-eof")
+	} else {
+		r.Class("fault-error")
+	}
+})
+
+func TestPropResume(t *testing.T) {
+	item := func(t *rapid.T, label string) StreamItem {
+		major := rapid.SampledFrom([]int{0, 0, 2, 3, 4, 5}).Draw(t, label+"-major")
+		var arg uint64
+		if major == 2 || major == 3 {
+			arg = uint64(rapid.SampledFrom([]int{0, 1, 5, 23, 24, 25, 255, 256, 300}).Draw(t, label+"-len"))
+		} else {
+			arg = boundaryU64(t, label+"-arg")
+		}
+		w := refcbor.MinWidth(arg)
+		if rapid.IntRange(0, 2).Draw(t, label+"-nonshortest") == 0 {
+			for _, x := range []int{1, 2, 4, 8} {
+				if x >= w && rapid.Bool().Draw(t, label+"-wider") {
+					w = x
+					break
+				}
+			}
+		}
+		return StreamItem{Major: major, Arg: arg, Width: w, Fill: 'x'}
+	}
+	resumeProp.Rapid(t, func(t *rapid.T) ResumeCase {
+		var c ResumeCase
+		for i, n := 0, rapid.IntRange(0, 2).Draw(t, "npre"); i < n; i++ {
+			c.Pre = append(c.Pre, item(t, "pre"))
+		}
+		c.Partial = StreamItem{Major: rapid.SampledFrom([]int{0, 2, 3, 4, 5}).Draw(t, "pmajor"), Width: rapid.SampledFrom([]int{1, 2, 4, 8, 8}).Draw(t, "pwidth"), Fill: 'y'}
+		// argument bytes all non-zero, so that whatever is left behind is visible
+		c.Partial.Arg = rapid.SampledFrom([]uint64{0x0102030405060708, 0xfffefdfcfbfaf9f8, 0x7f7f7f7f7f7f7f7f}).Draw(t, "parg") >> (8 * uint(8-c.Partial.Width))
+		c.Keep = rapid.IntRange(0, c.Partial.Width-1).Draw(t, "keep")
+		if (c.Partial.Major == 2 || c.Partial.Major == 3) && rapid.IntRange(0, 4).Draw(t, "incontent") == 0 {
+			c.Partial.Width, c.Partial.Arg, c.Keep = 1, 200, -1
+		}
+		c.PartCall = map[int]string{0: "uint", 2: "bytes", 3: "text", 4: "array", 5: "map"}[c.Partial.Major]
+		for i, n := 0, rapid.IntRange(1, 4).Draw(t, "npost"); i < n; i++ {
+			it := item(t, "post")
+			c.Post = append(c.Post, it)
+			c.Calls = append(c.Calls, map[int]string{0: "uint", 2: "bytes", 3: "text", 4: "array", 5: "map"}[it.Major])
+		}
+		c.EOF = rapid.Bool().Draw(t, "eof")
+		c.Chunk = rapid.SampledFrom([]int{0, 0, 1, 3}).Draw(t, "chunk")
+		return c
+	})
+}
